@@ -1036,7 +1036,8 @@ class PlanWalk(Walk):
         self.open()
         self.cap = 4096
         self.service()
-        self.write_completion()
+        if self.buf_len > 0:
+            self.write_completion()
         if self.broker.connect_seen and not self.errored:
             self.plan_connack(sp)
 
@@ -1074,7 +1075,7 @@ class PlanWalk(Walk):
                 self.cap = cap
                 self.buf_len = pre
                 self.service()
-                if wc:
+                if wc and self.buf_len > 0:       # (a driver reports a write completion only for bytes it was given)
                     self.write_completion()
             for k in stage.get("ops_before_close", []):
                 self.plan_op(k)
